@@ -408,14 +408,39 @@ def literal(node, mod=None, depth=0):
         if isinstance(a, (str, list, tuple)) and isinstance(b, int) and b > 10000:
             raise ValueError("repeat too large")
         return a * b
+    if isinstance(node, ast.BinOp) and isinstance(node.op, ast.Mod):
+        a, b = literal(node.left, mod, depth + 1), literal(node.right, mod, depth + 1)
+        if isinstance(a, str) and isinstance(b, (str, int, tuple)) and all(isinstance(x, (str, int)) and not isinstance(x, bool) for x in (b if isinstance(b, tuple) else (b,))):
+            try:
+                return a % b            # constant text formatted with constant str / int operands
+            except (TypeError, ValueError) as e:
+                raise ValueError(f"bad format: {e}")
+        if isinstance(a, int) and isinstance(b, int) and b:
+            return a % b
+        raise ValueError("% on non-constants")
     if isinstance(node, ast.JoinedStr):
         out = ""
         for v in node.values:
             if isinstance(v, ast.Constant):
                 out += v.value
+            elif isinstance(v, ast.FormattedValue) and v.conversion == -1 and v.format_spec is None:
+                x = literal(v.value, mod, depth + 1)
+                if not isinstance(x, (str, int)) or isinstance(x, bool):
+                    raise ValueError("f-string hole")
+                out += str(x)
             else:
                 raise ValueError("f-string hole")
         return out
+    if isinstance(node, ast.Call) and isinstance(node.func, ast.Attribute) and node.func.attr == "join" and len(node.args) == 1 and not node.keywords:
+        sep, items = literal(node.func.value, mod, depth + 1), literal(node.args[0], mod, depth + 1)
+        if isinstance(sep, str) and isinstance(items, (list, tuple, str)) and all(isinstance(x, str) for x in items):
+            return sep.join(items)
+        raise ValueError("join of non-strings")
+    if isinstance(node, ast.Call) and isinstance(node.func, ast.Name) and node.func.id == "len" and len(node.args) == 1 and not node.keywords:
+        v = literal(node.args[0], mod, depth + 1)
+        if isinstance(v, (str, list, tuple, set, dict)):
+            return len(v)
+        raise ValueError("len of a non-container")
     if isinstance(node, ast.Name) and mod is not None and node.id in mod.globals:
         return literal(mod.globals[node.id], mod, depth + 1)
     if isinstance(node, ast.Call) and isinstance(node.func, ast.Name) and node.func.id in ("list", "tuple", "set", "frozenset", "sorted") and len(node.args) == 1 and not node.keywords:
